@@ -112,7 +112,8 @@ def objects(mod, sc, emit):
         base = [P.made(), P.died()]
         w = {}
         obs = []
-        for step in h["steps"]:
+        for st in h["steps"]:
+            step, usable = st["do"], st["usable"]
             op, a = step[0], step[1:]
             exc = None
             try:
@@ -141,7 +142,8 @@ def objects(mod, sc, emit):
                 exc = type(e).__name__
             P.take_log()
             obs.append({"exc": exc, "made": P.made() - base[0], "died": P.died() - base[1],
-                        "w": {k: owner(v) + [v.get_id(), v.get_touched()] for k, v in sorted(w.items())}})
+                        "w": {k: owner(v) + ([v.get_id(), v.get_touched()] if k in usable else [None, None])
+                              for k, v in sorted(w.items())}})
         w = None
         gc.collect()
         emit({"h": h["id"], "obs": obs, "end": [P.made() - base[0], P.died() - base[1]], "dlog": P.take_dlog()})
